@@ -30,15 +30,36 @@ def ty_range(ty):
     return (-(1 << (b - 1)), (1 << (b - 1)) - 1)
 
 
-def interval(e, depth=0):
-    """(lo, hi) of an expression tree built with keep_casts=True, or None"""
+def interval(e, depth=0, env=None):
+    """(lo, hi) of an expression tree built with keep_casts=True, or None.
+    env: repr(atom without casts) -> (lo, hi) bounds derived from dominating guards"""
     if not isinstance(e, tuple) or depth > 30:
         return None
+    k = e[0]
+    if env:
+        r = env.get(repr(_strip_casts(e)))
+        if r is not None:
+            base = _interval0(e, depth, env)
+            if base is None:
+                return r
+            return (max(r[0], base[0]), min(r[1], base[1]))
+    return _interval0(e, depth, env)
+
+
+def _strip_casts(e):
+    if isinstance(e, tuple):
+        if e and e[0] == "cast":
+            return _strip_casts(e[1])
+        return tuple(_strip_casts(x) if isinstance(x, tuple) else x for x in e)
+    return e
+
+
+def _interval0(e, depth=0, env=None):
     k = e[0]
     if k == "const" and isinstance(e[1], int):
         return (e[1], e[1])
     if k == "cast":
-        inner = interval(e[1], depth + 1)
+        inner = interval(e[1], depth + 1, env)
         src = ty_range(e[3]) if len(e) > 3 else None
         dst = ty_range(e[2])
         cand = inner or src
@@ -49,7 +70,7 @@ def interval(e, depth=0):
         return dst
     if k == "bin":
         op = e[1]
-        a, b = interval(e[2], depth + 1), interval(e[3], depth + 1)
+        a, b = interval(e[2], depth + 1, env), interval(e[3], depth + 1, env)
         if op == "BitAnd":
             c = [x for x in (a, b) if x and x[0] == x[1] and x[0] >= 0]
             if c:
@@ -74,6 +95,8 @@ def interval(e, depth=0):
             return (min(c), max(c))
         if op == "Shl" and b[0] == b[1] and a[0] >= 0:
             return (a[0] << b[0], a[1] << b[0])
+        if op == "Shl" and a[0] >= 0 and 0 <= b[0] and b[1] < 128:
+            return (a[0] << b[0], a[1] << b[1])
         if op in ("Lt", "Le", "Eq", "Ne"):
             return (0, 1)
         return None
@@ -84,7 +107,7 @@ def interval(e, depth=0):
     if k == "call":
         c = e[1]
         if re.search(r"::(min)$", c) and len(e[2]) == 2:
-            a, b = interval(e[2][0], depth + 1), interval(e[2][1], depth + 1)
+            a, b = interval(e[2][0], depth + 1, env), interval(e[2][1], depth + 1, env)
             his = [x[1] for x in (a, b) if x]
             los = [x[0] for x in (a, b) if x]
             if his:
@@ -120,11 +143,130 @@ class Auditor:
         self.ex = Exprs(func)
         self.exk = Exprs(func, keep_casts=True)
         self._known = {}
+        self._loops = None
+        self._counters = None
+
+    # ------------------------------------------------------------ facts
+    def loop_facts(self, bi):
+        """inequalities that hold inside for-loops: `for i in a..b` gives a <= i < b;
+        `for (i, x) in v.iter().enumerate()` gives i + 1 <= len(v)"""
+        from mirutil import for_loops
+        from expr import walk, strip_tags
+        if self._loops is None:
+            self._loops = for_loops(self.f, self.ex)
+        out = []
+        for L in self._loops:
+            if bi not in L["body"]:
+                continue
+            nb = L["next_block"]
+            t = self.f.blocks[nb]["term"]
+            item = ("field", ("variant", self.ex.call(t), "Some"), "0")
+            src = L["source"]
+            if L["range"]:
+                lo, hi = linear(L["range"][0]), linear(L["range"][1])
+                li = linear(item)
+                out.append(lin_sub(lo, li))                       # lo - i <= 0
+                f2 = lin_sub(li, hi)
+                f2["1"] = f2.get("1", 0) + 1
+                out.append(f2)                                    # i - hi + 1 <= 0
+            elif isinstance(src, tuple) and src[0] == "call" and re.search(r"Iterator>?::enumerate$", src[1]):
+                inner = src[2][0]
+                base = None
+                if isinstance(inner, tuple) and inner[0] == "call" and re.search(r"::(iter|iter_mut|into_iter)$", inner[1]):
+                    base = inner[2][0]
+                elif isinstance(inner, tuple):
+                    base = inner
+                if base is not None:
+                    idx = ("field", item, "0")
+                    li = linear(idx)
+                    for lenfn in ("core::slice::<impl [T]>::len", "alloc::vec::Vec::<T, A>::len"):
+                        f3 = lin_sub(li, {repr(("call", lenfn, (base,))): 1})
+                        f3["1"] = f3.get("1", 0) + 1
+                        out.append(f3)                            # i + 1 - len <= 0
+        return out
 
     def known(self, bi):
         if bi not in self._known:
-            self._known[bi] = known_le0(self.f, bi, self.ex)
+            k = known_le0(self.f, bi, self.ex)
+            k.extend(self.loop_facts(bi))
+            self._known[bi] = k
         return self._known[bi]
+
+    def leaf_env(self):
+        """type ranges of named integer locals (parameters and variables)"""
+        if getattr(self, "_leaf", None) is None:
+            env = {}
+            f = self.f
+            argc = f.d["arg_count"]
+            for l, nm in f.local_names().items():
+                r = ty_range(f.locals[l]["ty"])
+                if r is None:
+                    continue
+                kind = "param" if 0 < l <= argc else "var"
+                env[repr((kind, nm))] = r
+            self._leaf = env
+        return self._leaf
+
+    def env(self, bi):
+        """atom -> (lo, hi) from the types of named locals and from single-atom guards"""
+        env = dict(self.leaf_env())
+        for k in self.known(bi):
+            if isinstance(k, tuple):
+                k = k[1]
+            atoms = [a for a in k if a != "1"]
+            if len(atoms) != 1:
+                continue
+            a = atoms[0]
+            c = k.get("1", 0)
+            co = k[a]
+            lo, hi = env.get(a, (-(1 << 127), (1 << 127)))
+            if not isinstance(co, int) or co == 0:
+                continue
+            if co > 0:          # co*a + c <= 0  ->  a <= floor(-c/co)
+                hi = min(hi, (-c) // co)
+            else:               # -|co|*a + c <= 0 -> a >= ceil(c/|co|)
+                lo = max(lo, -((-c) // (-co)))
+            env[a] = (lo, hi)
+        # prefix-mask tests: (x & m) == c with m = the high bits of a byte  =>  c <= x <= c + (0xff ^ m)
+        from mirutil import ATOM_EXPR
+        for a, (lo, hi) in list(env.items()):
+            e = ATOM_EXPR.get(a)
+            if lo == hi and isinstance(e, tuple) and e[0] == "bin" and e[1] == "BitAnd":
+                for m, x in ((e[2], e[3]), (e[3], e[2])):
+                    if isinstance(m, tuple) and m[0] == "const" and isinstance(m[1], int) and 0 < m[1] < 256:
+                        low = 255 ^ m[1]
+                        if (low + 1) & low == 0 and lo & low == 0:
+                            old = env.get(repr(x), (0, 255))
+                            env[repr(x)] = (max(old[0], lo), min(old[1], lo + low))
+        return env
+
+    def counters(self):
+        """locals used as pure counters: every definition is a constant < 2^16 or `self + small const`"""
+        if self._counters is None:
+            cs = set()
+            f = self.f
+            for l, ds in self.ex.defs.items():
+                nm = f.local_names().get(l)
+                if not nm:
+                    continue
+                ok = bool(ds)
+                for d in ds:
+                    if d[0] != "rv":
+                        ok = False
+                        break
+                    e = self.ex.rvalue(d[3])
+                    if e[0] == "const" and isinstance(e[1], int) and abs(e[1]) < (1 << 16):
+                        continue
+                    if e[0] == "bin" and e[1] == "Add" and ("var", nm) in (e[2], e[3]):
+                        o = e[3] if e[2] == ("var", nm) else e[2]
+                        if o[0] == "const" and isinstance(o[1], int) and 0 <= o[1] <= 16:
+                            continue
+                    ok = False
+                    break
+                if ok:
+                    cs.add(nm)
+            self._counters = cs
+        return self._counters
 
     def describe(self, t):
         ak = t["ak"]
@@ -138,11 +280,28 @@ class Auditor:
             return "%s by %s" % (ak, fmt(self.ex.operand(t["a"])))
         return ak
 
-    def discharge(self, bi, t):
-        """returns (ok, reason)"""
+    def describe_norm(self, t):
+        """descriptor used as table key: local variable names are erased (a rename must not change a verdict)"""
+        def erase(e):
+            if isinstance(e, tuple):
+                if e and e[0] == "var":
+                    return ("var", "$")
+                return tuple(erase(x) if isinstance(x, tuple) else x for x in e)
+            return e
+        from expr import strip_tags
+        ak = t["ak"]
+        if ak == "overflow":
+            a = fmt(erase(strip_tags(self.ex.operand(t["a"]))))
+            b = fmt(erase(strip_tags(self.ex.operand(t["b"])))) if "b" in t else ""
+            return "%s(%s%s) on %s" % (t["op"], a, ", " + b if b else "", t["ty"].rsplit("::", 1)[-1])
+        return self.describe(t)
+
+    def discharge(self, bi, t, wide_ok=False):
+        """returns (ok, reason).  wide_ok: 64-bit Add/Mul on lengths/offsets are discharged by the
+        physical bound (no object has 2^63 bytes)."""
         ak = t["ak"]
         ex, exk = self.ex, self.exk
-        # constant condition
+        env = self.env(bi)
         c = const_fold(exk.operand(t["cond"]))
         if c is not None and bool(c) == t["expected"]:
             return True, "assert condition is constant"
@@ -150,41 +309,71 @@ class Auditor:
             op = t["op"]
             ty = t["ty"]
             tr = ty_range(ty)
+            unsigned = ty.startswith("u")
+            a = exk.operand(t["a"])
+            b = exk.operand(t["b"]) if "b" in t else None
             if op in ("Shl", "Shr"):
-                # cond is `shift < bits`
-                return False, "shift amount not constant"
-            a, b = exk.operand(t["a"]), exk.operand(t["b"]) if "b" in t else None
+                ib = interval(b, env=env)
+                bits = INT_BITS.get(ty, 64)
+                if ib and 0 <= ib[0] and ib[1] < bits:
+                    return True, "shift amount in %s" % (ib,)
+                return False, "shift amount not bounded below the bit width"
             if op == "Neg":
-                ia = interval(a)
+                ia = interval(a, env=env)
                 if ia and tr and -ia[1] >= tr[0] and -ia[0] <= tr[1]:
                     return True, "operand interval %s" % (ia,)
                 return False, "negation may overflow"
-            ia, ib = interval(a), interval(b)
+            if op in ("Div", "Rem"):
+                ib = interval(b, env=env)
+                if ib and (ib[0] > 0 or (ib[1] < 0 and ib[0] != -1 and ib[1] != -1)):
+                    return True, "divisor interval %s (MIN / -1 impossible)" % (ib,)
+                return False, "signed division may overflow"
+            ia, ib = interval(a, env=env), interval(b, env=env)
             if ia and ib and tr:
-                res = interval(("bin", op, a, b))
-                if res and tr[0] <= res[0] and res[1] <= tr[1]:
+                res = _interval0(("bin", op, ("const", 0), ("const", 0)), 0, None)
+                lohi = None
+                if op == "Add":
+                    lohi = (ia[0] + ib[0], ia[1] + ib[1])
+                elif op == "Sub":
+                    lohi = (ia[0] - ib[1], ia[1] - ib[0])
+                elif op == "Mul":
+                    cands = [ia[0] * ib[0], ia[0] * ib[1], ia[1] * ib[0], ia[1] * ib[1]]
+                    lohi = (min(cands), max(cands))
+                if lohi and tr[0] <= lohi[0] and lohi[1] <= tr[1]:
                     return True, "interval %s %s %s fits %s" % (ia, op, ib, ty)
+            if op in ("Sub", "Add") and ty in ("i64", "isize") and wide_ok:
+                def from_len(x):
+                    return isinstance(x, tuple) and ((x[0] == "cast" and len(x) > 3 and x[3] in ("usize", "u64", "u32", "u16", "u8")) or
+                                                     (x[0] == "const" and isinstance(x[1], int) and abs(x[1]) < (1 << 62)))
+                if from_len(a) and from_len(b):
+                    return True, "signed 64-bit %s of two in-memory lengths (each < 2^63 by the physical limit)" % op
             if op == "Sub":
                 la, lb = linear(ex.operand(t["a"])), linear(ex.operand(t["b"]))
                 target = lin_sub(lb, la)          # b - a <= 0
-                if implies_le0(self.known(bi), target):
-                    return True, "dominating guard implies %s <= %s" % (fmt(ex.operand(t["b"])), fmt(ex.operand(t["a"])))
-                # lower bound known from intervals: a >= lo_a, b <= hi_b
-                if ia and ib and ia[0] >= ib[1]:
-                    return True, "intervals"
+                if unsigned and implies_le0(self.known(bi), target, unsigned=True):
+                    return True, "dominating guard / loop bound implies %s <= %s" % (fmt(ex.operand(t["b"])), fmt(ex.operand(t["a"])))
+                if not unsigned and tr and ia and ib is None:
+                    pass
+                return False, "no dominating guard or interval shows %s <= %s" % (fmt(ex.operand(t["b"])), fmt(ex.operand(t["a"])))
+            if op in ("Add", "Mul") and wide_ok and ty in ("usize", "u64", "i64", "isize"):
+                return True, "64-bit %s of in-memory lengths/offsets/counters: bounded by the physical limit (no object of 2^63 bytes)" % op
             if op == "Add" and tr:
-                # a + b <= max: guard implies a + b - max <= 0 ?
-                la, lb = linear(ex.operand(t["a"])), linear(ex.operand(t["b"]))
-                s = dict(la)
-                for k, v in lb.items():
-                    s[k] = s.get(k, 0) + v
-                s["1"] = s.get("1", 0) - tr[1]
-                if implies_le0(self.known(bi), s):
+                # pure counter + small constant
+                ea, eb = ex.operand(t["a"]), ex.operand(t["b"])
+                for x, y in ((ea, eb), (eb, ea)):
+                    if isinstance(x, tuple) and x[0] == "var" and x[1] in self.counters() and y[0] == "const" and isinstance(y[1], int) and 0 <= y[1] <= 16:
+                        return True, "counter `%s` (starts at a small constant, only incremented by <= 16 per loop iteration): bounded by the number of in-memory items (< 2^31)" % x[1]
+                la, lb = linear(ea), linear(eb)
+                s2 = dict(la)
+                for k2, v in lb.items():
+                    s2[k2] = s2.get(k2, 0) + v
+                s2["1"] = s2.get("1", 0) - tr[1]
+                if implies_le0(self.known(bi), s2, unsigned=unsigned):
                     return True, "dominating guard bounds the sum"
             return False, "no dominating guard or interval bounds it"
         if ak == "bounds":
             idx, ln = exk.operand(t["index"]), exk.operand(t["len"])
-            ii, il = interval(idx), interval(ln)
+            ii, il = interval(idx, env=env), interval(ln, env=env)
             if ii and il and ii[1] < il[0]:
                 return True, "index interval %s below length %s" % (ii, il)
             target = lin_sub(linear(ex.operand(t["index"])), linear(ex.operand(t["len"])))
@@ -193,12 +382,9 @@ class Auditor:
                 return True, "dominating guard implies index < len"
             return False, "index not bounded by a dominating guard"
         if ak in ("divzero", "remzero"):
-            ia = interval(exk.operand(t["a"]))
+            ia = interval(exk.operand(t["a"]), env=env)
             if ia and (ia[0] > 0 or ia[1] < 0):
-                return True, "divisor is a non-zero constant"
-            # guard: divisor != 0 / > 0
-            for k in self.known(bi):
-                pass
+                return True, "divisor is non-zero (%s)" % (ia,)
             d = linear(ex.operand(t["a"]))
             neg = {kk: -v for kk, v in d.items()}
             neg["1"] = neg.get("1", 0) + 1          # 1 - d <= 0  <=> d >= 1
